@@ -1,6 +1,7 @@
 package main
 
 import (
+	"sync/atomic"
 	"regexp"
 	"bytes"
 	"context"
@@ -104,21 +105,46 @@ func solve(dir, name, text string, timeoutS int, thorough bool) SolveResult {
 		ms             int64
 	}
 	ch := make(chan ans, len(solvers))
+	extraGo := make(chan struct{})
+	var baseLeft, baseDefinite int32 = 4, 0
+	var once sync.Once
+	releaseExtras := func() { once.Do(func() { close(extraGo) }) }
+	if !thorough {
+		go func() {
+			select {
+			case <-ctx.Done():
+			case <-time.After(3 * time.Second):
+			}
+			releaseExtras()
+		}()
+	}
 	var wg sync.WaitGroup
 	for i, sp := range solvers {
 		wg.Add(1)
 		go func(i int, sp solverSpec) {
 			defer wg.Done()
-			if i >= 4 && !thorough {
+			if i >= 4 {
 				// the extra portfolio members join only when the first four are still working after 3 s
+				// (quick) or when none of them has given a definitive answer (thorough)
 				select {
 				case <-ctx.Done():
 					ch <- ans{sp, "cancelled", "", 0}
 					return
-				case <-time.After(3 * time.Second):
+				case <-extraGo:
 				}
 			}
 			st, out, ms := runSolver(ctx, sp, file, timeoutS)
+			if i < 4 && thorough {
+				if st == "sat" || st == "unsat" {
+					atomic.AddInt32(&baseDefinite, 1)
+				}
+				if atomic.AddInt32(&baseLeft, -1) == 0 {
+					if atomic.LoadInt32(&baseDefinite) > 0 {
+						cancel() // the four base solvers have answered: the extras are not needed
+					}
+					releaseExtras()
+				}
+			}
 			ch <- ans{sp, st, out, ms}
 		}(i, sp)
 	}
